@@ -142,6 +142,18 @@ def run_wrapping(ck, F):
                 ck.ok("C12.no-wrapping-in-checked", key, "%s: %s" % (ctx, detail))
                 continue
             ex = WRAP_EXEMPT.get((root_id, meth)) or WRAP_EXEMPT.get((root_id, "*"))
+            if not ex:
+                # a private helper (e.g. a block extracted from an exempt site): it inherits an exemption that ALL its callers have
+                callers = set()
+                for g in c.fns:
+                    if "mir" not in g:
+                        continue
+                    for _, ct in Body(g).calls():
+                        if flow.norm(callee(ct) or "") == flow.norm(root_id):
+                            callers.add(g.get("parent") if g["kind"] == "Closure" else g["id"])
+                exs = [WRAP_EXEMPT.get((cid, meth)) or WRAP_EXEMPT.get((cid, "*")) for cid in callers]
+                if callers and all(exs):
+                    ex = "called only from exempt site(s) %s: %s" % (sorted(last(x) for x in callers), exs[0])
             if ex:
                 ck.ok("C12.no-wrapping-in-checked", key, "exempt: %s [%s]" % (ex, detail))
             else:
